@@ -9,6 +9,11 @@ coq/Model/CurvesObs.v, p_op):
   d mn ix                          delete_curve            u mn ix data unit descr value     update_curve
   r ix name unit value descr ids   replace_curve_item      s key ids                         las[key] = array
   t key name unit value descr ids  las[key] = CurveItem    D arr names truncate              set_data
+Cross-file item operations (implementation side only, see ASSUMPTIONS): the CurveItem OBJECT at position i of file
+src is handed to the target file
+  P src i                          append_curve_item(files[src].curves[i])
+  Q ix src i                       insert_curve_item(ix, files[src].curves[i])
+  T key src i                      las[key] = files[src].curves[i]
 Arrays are lists of abstract sample ids (the float handed to lasio is float(id)), every id followed by ",";
 2-D arrays: every column followed by ";"; names: "N" | "L" + every name followed by ","; optional arguments:
 "N" | "S" + payload.
@@ -31,10 +36,27 @@ ASSUMPTIONS = [
     "index, the mnemonic_transforms flag -- for every LASFile of the history",
     "arrays are immutable values (lists of abstract sample ids; the harness hands lasio float(id)): numpy view-vs-copy "
     "semantics (set_data stores views of the caller's array, append_curve keeps the caller's array) are outside the model",
-    "str.upper() is modelled as ASCII upper-casing; generated mnemonics are ASCII; mnemonics are colon-free (the C13 "
-    "known finding suffix-clash concerns literal 'X:<n>' names and is not re-examined here)",
-    "read LASFiles: curve sections are written with upper-case mnemonics and letter-only unit/value/descr tokens, read "
-    "with mnemonic_case='upper' (mnemonic_transforms on); the model builds that initial state by appending the curves",
+    "str.upper() is modelled as ASCII upper-casing; generated mnemonics are ASCII.  Literal 'X:<n>' names are generated "
+    "(las['A:1'] = array, names=['A:1', ...]): the C13 known finding suffix-clash then shows as keys() not pairwise "
+    "distinct / las[k] finding another curve; finding_of replays the history and accepts a violation as that finding "
+    "only when the FIRST failing clause is one of these two and is about two curves that share a key because one is "
+    "literally named u:<k> and the other is a u with the generated suffix :<k> (compared as the ~Curves section "
+    "compares names: case-insensitively when mnemonic_transforms is on; 'A:01' is no generated suffix)",
+    "read LASFiles: letter-only unit/value/descr tokens; read with mnemonic_case upper and lower (mnemonic_transforms on; "
+    "the model is handed the names as the reader leaves them and builds the initial state by appending the curves) and "
+    "with mnemonic_case='preserve' (flag off).  CurvesObs.p_file has no encoding for a read state with the flag off, so "
+    "histories on a preserve-read file are judged by the implementation-side list-model oracle only",
+    "cross-file item operations (pairs): b.append_curve_item(a.curves[i]), b.insert_curve_item(k, a.curves[i]), "
+    "b[key] = a.curves[i], followed by edits of either file.  lasio stores the OBJECT (known finding shared-item: a later "
+    "re-suffix / update_curve on one file shows in the other).  The Coq world model (Model/Curves*.v, CurvesObs.v) has "
+    "value semantics - C14_independent(_history) hold by construction - and would mismatch on every such history, so "
+    "they are routed through the implementation-side list-model oracle only (which COPIES the entry: the statement's "
+    "reading); finding_of accepts a violation as shared-item only when the first failing clause is the independence "
+    "clause, the curve that changed is by identity one object sitting in both files, and the history contains such an "
+    "operation.  The same operations also hand a file an object it already holds (b.append_curve_item(x) twice, "
+    "a.append_curve_item(a.curves[0])): known finding same-item-twice (one object at two positions carries one key), "
+    "accepted only when the first failing clause is keys() pairwise distinct / a lookup about two positions holding one "
+    "object and the history contains such a hand-over",
     "arguments outside the statement's domain are not exercised: replace_curve_item / las[k] = x with something that is "
     "neither an array nor a CurveItem (replace_curve_item(ix, non-item) removes the curve and then fails its assert), "
     "non-int indices, arrays of rank > 2, pandas DataFrames (set_data_from_df)",
@@ -122,11 +144,21 @@ def las_text(curves):
     return "\n".join(lines) + "\n"
 
 
+def init_case(init):
+    """mnemonic_case the initial text is read with (third member of a read init; default upper)"""
+    return init[2] if init != "F" and len(init) > 2 else "upper"
+
+
+def cased(init, name):
+    mc = init_case(init)
+    return name.upper() if mc == "upper" else name.lower() if mc == "lower" else name
+
+
 def make_las(init):
     import lasio
     if init == "F":
         return lasio.LASFile()
-    return lasio.read(las_text(init[1]), mnemonic_case="upper")
+    return lasio.read(las_text(init[1]), mnemonic_case=init_case(init))
 
 
 def curve_item(f, n):
@@ -134,12 +166,45 @@ def curve_item(f, n):
     return CurveItem(f[n], f[n + 1], f[n + 2], f[n + 3], arr1(dec_ids(f[n + 4])))
 
 
-def apply_op(las, f):
-    """Run one operation (code first) on a real LASFile -> 'ok' or the exception class name."""
+CROSS = ("P", "Q", "T")
+
+
+def cross_source(f):
+    """(file number, position) of the item a cross-file operation hands over"""
+    return (int(f[1]), int(f[2])) if f[0] == "P" else (int(f[2]), int(f[3]))
+
+
+def cross_item(files, las, f):
+    """the CurveItem object an item-handing operation names (src may be the target file itself), or None when there is
+    no such curve"""
+    src, i = cross_source(f)
+    cs = list(list.__iter__(files[src].curves))
+    if not -len(cs) <= i < len(cs):
+        return None
+    return cs[i]
+
+
+def holds(las, obj):
+    return any(x is obj for x in list.__iter__(las.curves))
+
+
+def apply_op(las, f, files=None):
+    """Run one operation (code first) on a real LASFile -> 'ok' or the exception class name ('skip': a cross-file
+    operation whose source curve does not exist; nothing was called)."""
     from lasio import HeaderItem
     c = f[0]
+    if c in CROSS:
+        item = cross_item(files, las, f)
+        if item is None:
+            return "skip"
     try:
-        if c == "a":
+        if c == "P":
+            las.append_curve_item(item)
+        elif c == "Q":
+            las.insert_curve_item(int(f[1]), item)
+        elif c == "T":
+            las[f[1]] = item
+        elif c == "a":
             las.append_curve(f[1], arr1(dec_ids(f[5])), unit=f[2], value=f[3], descr=f[4])
         elif c == "i":
             las.insert_curve(int(f[1]), f[2], arr1(dec_ids(f[6])), unit=f[3], value=f[4], descr=f[5])
@@ -239,12 +304,26 @@ def addr(keys, mn, ix, n):
     return FAIL
 
 
-def list_step(L, keys, f):
+def list_step(L, keys, f, handed=None):
     """The list model: (new list | FAIL, unchanged_required).  FAIL = the call must raise and leave the
-    curves alone.  `keys` = las.keys() before the call (resolves a mnemonic to a position)."""
+    curves alone.  `keys` = las.keys() before the call (resolves a mnemonic to a position).  `handed` = for a
+    cross-file item operation (entry of the source file's list, session mnemonic of the item): the list model has
+    value semantics, the entry is COPIED into this list."""
     c = f[0]
     n = len(L)
     L = list(L)
+    if c == "P":
+        return L + [handed[0]]
+    if c == "Q":
+        L.insert(int(f[1]), handed[0])
+        return L
+    if c == "T":
+        if f[1] != handed[1]:
+            return FAIL
+        if f[1] in keys:
+            L[keys.index(f[1])] = handed[0]
+            return L
+        return L + [handed[0]]
     if c == "a":
         return L + [(f[1], (f[2], f[3], f[4]), tuple(dec_ids(f[5])))]
     if c == "A":
@@ -320,96 +399,127 @@ def snapshot(las):
     return [(id(c), c.original_mnemonic, c.mnemonic, str(c.unit), str(c.value), str(c.descr), ids_of(c.data)) for c in cs]
 
 
+EXPLAINED_CLAUSES = ("keys_distinct", "lookup")
+
+
 def check_views(las, L):
-    """Every view of the LASFile against the list L -> list of texts (empty = all agree)."""
+    """Every view of the LASFile against the list L -> [(clause, text, (p, q) | None)] (empty = all agree); p < q are
+    the positions of the two curves the failure is about (two curves under one key; the curve a lookup should and
+    does resolve to)."""
     bad = []
     cs = list(list.__iter__(las.curves))
     n = len(L)
+
+    def pos(obj):
+        return next((p for p, x in enumerate(cs) if x is obj), None)
+
+    def pair(p, q):
+        return None if p is None or q is None or p == q else (min(p, q), max(p, q))
     got = [(c.original_mnemonic, (str(c.unit), str(c.value), str(c.descr)), ids_of(c.data)) for c in cs]
     exp = [(e[0], e[1], ".".join(str(i) for i in e[2])) for e in L]
     if got != exp:
-        bad.append("curves (name, metadata, array) are %r, the list model has %r" % (got, exp))
+        bad.append(("content", "curves (name, metadata, array) are %r, the list model has %r" % (got, exp), None))
         return bad
     keys = las.keys()
     if keys != [c.mnemonic for c in cs]:
-        bad.append("keys() %r is not the list of session mnemonics" % (keys,))
+        bad.append(("keys", "keys() %r is not the list of session mnemonics" % (keys,), None))
     if len(set(keys)) != len(keys):
-        bad.append("keys() %r are not pairwise distinct" % (keys,))
+        q = next(j for j, k in enumerate(keys) if k in keys[:j])
+        bad.append(("keys_distinct", "keys() %r are not pairwise distinct" % (keys,), pair(keys.index(keys[q]), q)))
     for k, e in zip(keys, L):
         if not (k == shown(e[0]) or re.fullmatch(re.escape(shown(e[0])) + r":[0-9]+", k)):
-            bad.append("key %r does not belong to the curve named %r" % (k, e[0]))
+            bad.append(("key_name", "key %r does not belong to the curve named %r" % (k, e[0]), None))
     vals = las.values()
     if [ids_of(v) for v in vals] != [x[2] for x in exp]:
-        bad.append("values() differ from the arrays of the list model")
+        bad.append(("values", "values() differ from the arrays of the list model", None))
     its = las.items()
     if [(k, ids_of(v)) for k, v in its] != [(k, x[2]) for k, x in zip(keys, exp)]:
-        bad.append("items() is not zip(keys(), values())")
+        bad.append(("items", "items() is not zip(keys(), values())", None))
     # index
     try:
         ix = ids_of(las.index)
         if n == 0 or ix != exp[0][2]:
-            bad.append("index is %r" % (ix,))
+            bad.append(("index", "index is %r" % (ix,), None))
     except IndexError:
         if n:
-            bad.append("index raised IndexError on a non-empty LASFile")
+            bad.append(("index", "index raised IndexError on a non-empty LASFile", None))
     except Exception as e:      # noqa: BLE001
-        bad.append("index raised %s" % exc(e))
+        bad.append(("index", "index raised %s" % exc(e), None))
     # data: column i is curve i when all lengths agree
     lens = {len(e[2]) for e in L}
     try:
         d = las.data
         if len(lens) > 1:
-            bad.append("data is defined although the curves have lengths %r" % (sorted(lens),))
+            bad.append(("data", "data is defined although the curves have lengths %r" % (sorted(lens),), None))
         else:
             r = lens.pop() if lens else 0
             if d.shape != (r, n):
-                bad.append("data.shape is %r, expected %r" % (d.shape, (r, n)))
+                bad.append(("data", "data.shape is %r, expected %r" % (d.shape, (r, n)), None))
             else:
                 for i in range(n):
                     if ids_of(d[:, i]) != exp[i][2]:
-                        bad.append("column %d of data is not curve %d" % (i, i))
+                        bad.append(("data", "column %d of data is not curve %d" % (i, i), None))
     except ValueError:
         if len(lens) <= 1:
-            bad.append("data raised ValueError although all curves have one length")
+            bad.append(("data", "data raised ValueError although all curves have one length", None))
     except Exception as e:      # noqa: BLE001
-        bad.append("data raised %s" % exc(e))
+        bad.append(("data", "data raised %s" % exc(e), None))
     # integer indexing, exactly as on a list
     for z in range(-n - 2, n + 2):
         try:
             g = ids_of(las[z])
             if not -n <= z < n or g != exp[z][2]:
-                bad.append("las[%d] is %r" % (z, g))
+                bad.append(("int", "las[%d] is %r" % (z, g), None))
         except IndexError:
             if -n <= z < n:
-                bad.append("las[%d] raised IndexError" % z)
+                bad.append(("int", "las[%d] raised IndexError" % z, None))
         except Exception as e:      # noqa: BLE001
-            bad.append("las[%d] raised %s" % (z, exc(e)))
+            bad.append(("int", "las[%d] raised %s" % (z, exc(e)), None))
     # mnemonic indexing: key i finds curve i; other names raise KeyError
     for i, k in enumerate(keys):
         try:
             if ids_of(las[k]) != exp[i][2]:
-                bad.append("las[%r] is not the array of curve %d" % (k, i))
+                # which curve the lookup found instead (las[k] returns las.curves[k].data)
+                bad.append(("lookup", "las[%r] is not the array of curve %d" % (k, i), pair(pos(las.curves[k]), i)))
             if las.get_curve(k) is not cs[i]:
-                bad.append("get_curve(%r) is not curve %d" % (k, i))
+                bad.append(("lookup", "get_curve(%r) is not curve %d" % (k, i), pair(pos(las.get_curve(k)), i)))
         except Exception as e:      # noqa: BLE001
-            bad.append("las[%r] raised %s" % (k, exc(e)))
+            bad.append(("lookup", "las[%r] raised %s" % (k, exc(e)), None))
     for k in PROBE_KEYS + [x.swapcase() for x in keys]:
         if k in keys:
             continue
         try:
             las[k]
-            bad.append("las[%r] succeeds although %r is not a key" % (k, k))
+            bad.append(("missing_key", "las[%r] succeeds although %r is not a key" % (k, k), None))
         except KeyError:
             pass
         except Exception as e:      # noqa: BLE001
-            bad.append("las[%r] raised %s, not KeyError" % (k, exc(e)))
+            bad.append(("missing_key", "las[%r] raised %s, not KeyError" % (k, exc(e)), None))
     return bad
+
+
+def explained_by(las, v):
+    """Which known finding explains the violation v = (clause, text, pair) on this LASFile?  Only `keys() pairwise
+    distinct` and `las[k] / get_curve(k) finds curve i` failing on two curve positions p < q can be explained:
+    same-item-twice  positions p and q hold ONE CurveItem object (it was handed to the file although the file already
+                     held it), so both carry one key;
+    suffix-clash     (C13's, seen through the LASFile) the two curves carry the same key BECAUSE one is literally named
+                     u:<k> and the other is a u with the generated suffix :<k> (items_common.clash_pairs, compared the
+                     way the ~Curves section compares names).
+    -> finding id or None"""
+    from props import items_common as ic
+    if v[0] not in EXPLAINED_CLAUSES or v[2] is None:
+        return None
+    cs = list(list.__iter__(las.curves))
+    if cs[v[2][0]] is cs[v[2][1]]:
+        return "same-item-twice"
+    return "suffix-clash" if v[2] in ic.clash_pairs(las.curves) else None
 
 
 def init_list(init):
     if init == "F":
         return []
-    return [(m, (u, v, d), tuple(ids)) for (m, u, v, d, ids) in init[1]]
+    return [(cased(init, m), (u, v, d), tuple(ids)) for (m, u, v, d, ids) in init[1]]
 
 
 class Sim:
@@ -423,66 +533,110 @@ class Sim:
         self.violations = []
         self.done = []
         self.shared = False
+        self.cross = False          # an item OBJECT of another file was handed to a file: outside the Coq world model
+        self.twice = False          # an item OBJECT was handed to a file that already holds it (by identity)
         if oracle:
             for t, las in enumerate(self.files):
                 if inits[t] == "F" and len(las.curves):
                     self.shared = True
                     # state shared between LASFile objects: reproducible as a two-file history
                     self.violations.append({
-                        "payload": {"inits": ["F", "F"], "ops": [["0", "a", "A", "u", "v", "d", "1,2,"]]},
+                        "payload": {"inits": ["F", "F"], "ops": [["0", "a", "A", "u", "v", "d", "1,2,"]], "check": "fresh"},
                         "what": "a fresh LASFile() already has the curves %r: LASFile objects share state"
-                                % (las.keys(),)})
+                                % (las.keys(),), "explained": None})
                     self.oracle = False
                     return
                 for b in check_views(las, self.lists[t]):
-                    self.flag("initial state of file %d: %s" % (t, b))
+                    self.flag("initial state of file %d: %s" % (t, b[1]), b[0], explained_by(las, b))
 
-    def flag(self, what):
+    def flag(self, what, clause, explained=None):
+        """clause: which clause of the statement failed; explained: id of the known finding that explains THIS
+        failure (decided on the failing state), or None"""
+        if explained == "shared-item" and not self.cross or explained == "same-item-twice" and not self.twice:
+            explained = None
         if len(self.violations) < 3:
-            self.violations.append({"payload": {"inits": self.inits, "ops": [list(o) for o in self.done]},
-                                    "what": "after %s on %s: %s" % (self.done, self.inits, what)})
+            self.violations.append({"payload": {"inits": self.inits, "ops": [list(o) for o in self.done], "check": clause},
+                                    "what": "after %s on %s: %s" % (self.done, self.inits, what), "explained": explained})
         # the list model and the LASFile have parted: later steps are still run (for the
         # observation) but no longer judged
         self.oracle = False
+
+    def where_else(self, obj, but):
+        """(file, position) of the object in another file than `but`, or None"""
+        for j, x in enumerate(self.files):
+            if j != but:
+                for p, c in enumerate(list.__iter__(x.curves)):
+                    if c is obj:
+                        return j, p
+        return None
 
     def step(self, op):
         t, f = int(op[0]), op[1:]
         las = self.files[t]
         judged = self.oracle
+        handed = None
+        if f[0] in CROSS:
+            item = cross_item(self.files, las, f)
+            if item is not None:
+                if holds(las, item):
+                    self.twice = True
+                if cross_source(f)[0] != t:
+                    self.cross = True
+                if judged:
+                    src, i = cross_source(f)
+                    handed = (self.lists[src][i], item.mnemonic)
         if judged:
             keys = las.keys()
             before = snapshot(las)
             others = [snapshot(x) if j != t else None for j, x in enumerate(self.files)]
-        r = apply_op(las, f)
+        r = apply_op(las, f, self.files)
         self.done.append(op)
-        if not judged:
+        if not judged or r == "skip":
             return r
-        exp = list_step(self.lists[t], keys, f)
+        exp = list_step(self.lists[t], keys, f, handed)
         plain = lambda snap: [x[1:] for x in snap]      # noqa: E731  (without the object ids)
         if exp == FAIL:
             if r == "ok":
-                self.flag("the call succeeded although the list model rejects it")
+                self.flag("the call succeeded although the list model rejects it", "raises")
             elif r not in [e.__name__ for e in ERRS]:
-                self.flag("the call raised %s" % r)
+                self.flag("the call raised %s" % r, "raises")
             if snapshot(las) != before:
-                self.flag("the call raised %s but changed the curves: %r -> %r" % (r, plain(before), plain(snapshot(las))))
+                self.flag("the call raised %s but changed the curves: %r -> %r" % (r, plain(before), plain(snapshot(las))), "frame")
         elif exp == "unchanged":
             after = [s[1:2] + s[3:] for s in snapshot(las)]
             if after != [s[1:2] + s[3:] for s in before]:
-                self.flag("an array without elements / of the wrong rank changed the curves (%s)" % r)
+                self.flag("an array without elements / of the wrong rank changed the curves (%s)" % r, "frame")
         else:
             if r != "ok":
-                self.flag("the call raised %s; the list model gives %r" % (r, exp))
+                self.flag("the call raised %s; the list model gives %r" % (r, exp), "raises")
                 if snapshot(las) != before:
-                    self.flag("... and the failed call changed the curves")
+                    self.flag("... and the failed call changed the curves", "frame")
             else:
                 self.lists[t] = exp
         for j, x in enumerate(self.files):
             if j != t and snapshot(x) != others[j]:
-                self.flag("an operation on file %d changed file %d" % (t, j))
+                # independence clause.  Is the curve that changed an OBJECT that also sits in another file?
+                now = snapshot(x)
+                cs = list(list.__iter__(x.curves))
+                hit = None
+                for p, (o_, n_) in enumerate(zip(others[j], now)):
+                    if o_ != n_:
+                        w = self.where_else(cs[p], j)
+                        if w is not None:
+                            hit = (p, w, o_[1:], n_[1:])
+                            break
+                if hit is not None and len(now) == len(others[j]):
+                    self.flag("shared item: an operation on file %d changed file %d (curve %d of file %d is the same CurveItem "
+                              "object as curve %d of file %d, handed over by append_curve_item / insert_curve_item / las[k] = item: "
+                              "lasio stores the object, not a copy): %r -> %r" % (t, j, hit[0], j, hit[1][1], hit[1][0], hit[2], hit[3]),
+                              "independent", "shared-item")
+                else:
+                    self.flag("an operation on file %d changed file %d" % (t, j), "independent")
         if self.oracle:
             for b in check_views(las, self.lists[t]):
-                self.flag(b)
+                fid = explained_by(las, b)
+                self.flag(("same item twice: curves %d and %d are ONE CurveItem object (handed to the file although it "
+                           "already held it): " % b[2] if fid == "same-item-twice" else "") + b[1], b[0], fid)
         return r
 
     def observe(self):
@@ -492,7 +646,14 @@ class Sim:
 def enc_init(init):
     if init == "F":
         return "F"
-    return FS.join(["R"] + ["/".join([m, u, v, d, enc_ids(ids)]) for (m, u, v, d, ids) in init[1]])
+    # the model is handed the names as the reader leaves them (upper / lower); mnemonic_case="preserve" (flag off) has
+    # no encoding in CurvesObs.p_file: such histories stay on the implementation side (coq_ok)
+    return FS.join(["R"] + ["/".join([cased(init, m), u, v, d, enc_ids(ids)]) for (m, u, v, d, ids) in init[1]])
+
+
+def coq_ok(inits, ops):
+    """can the Coq world model (value semantics, read = transforms on) be asked about this history?"""
+    return (all(init_case(i) != "preserve" for i in inits) and not any(o[1] in CROSS for o in ops))
 
 
 def case_input(inits, ops):
@@ -575,6 +736,15 @@ def tiny_alphabet():
     return [("a", "A", 2), ("i", 0, "A", 2), ("d", None, -1), ("r", -1, "A"), ("D", "len+1", "dup", True, 2)]
 
 
+def cross_alphabet():
+    """(target file, template): file 0 = a, file 1 = b.  b receives item objects of a (P append_curve_item, Q
+    insert_curve_item, T las[k] = item) and is then edited in ways that re-suffix (a curve of the same name is added)
+    or update the received item; a is edited too (the sharing works both ways)."""
+    return [(0, ("a", "A", 2)), (0, ("u", None, 0, "d")), (0, ("d", None, -1)), (0, ("P", 0, 0)),
+            (1, ("P", 0, 0)), (1, ("P", 0, -1)), (1, ("Q", 0, 0, 0)), (1, ("T", 0, 0)),
+            (1, ("a", "A", 2)), (1, ("i", 0, "A", 2)), (1, ("u", None, -1, "u")), (1, ("s", "A", 2))]
+
+
 class Gen:
     """Fresh sample ids and metadata tags, so that every array and item is distinguishable."""
 
@@ -604,6 +774,12 @@ def instantiate(t, target, n, g):
     def item(name, r=2):
         return [name, g.tag("u"), g.tag("v"), g.tag("d"), enc_ids(g.ids(r))]
 
+    if c == "P":
+        return [T, "P", str(t[1]), str(t[2])]
+    if c == "Q":
+        return [T, "Q", str(pos_of(t[1], n)), str(t[2]), str(t[3])]
+    if c == "T":                          # the key is filled in by play()/random_history (the item's session mnemonic)
+        return [T, "T", t[3] if len(t) > 3 else "?", str(t[1]), str(t[2])]
     if c == "a":
         return [T, "a"] + item(t[1], t[2])
     if c == "A":
@@ -650,7 +826,22 @@ def instantiate(t, target, n, g):
 
 READ_INIT = ["R", [("A", "m", "", "da", [1, 2]), ("B", "uu", "vb", "db", [3, 4]), ("A", "", "va", "", [5, 6])]]
 READ_INIT2 = ["R", [("", "m", "", "x", [7, 8, 9]), ("C", "", "", "", [4, 5, 6])]]
-INITS = {"fresh": "F", "read": READ_INIT, "read2": READ_INIT2}
+# the same mixed-case curve section read with each mnemonic_case: upper -> A:1, B, A:2 (flag on), lower -> a:1, b, a:2
+# (flag on), preserve -> A, b, a (flag off: implementation side only)
+MIXED = [("A", "m", "", "da", [1, 2]), ("b", "uu", "vb", "db", [3, 4]), ("a", "", "va", "", [5, 6])]
+INITS = {"fresh": "F", "read": READ_INIT, "read2": READ_INIT2, "read_upper": ["R", MIXED, "upper"],
+         "read_lower": ["R", MIXED, "lower"], "read_preserve": ["R", MIXED, "preserve"]}
+
+
+def fill_cross(t, sim):
+    """a  T  template names the source only: the key is the handed item's current session mnemonic (or, one time in
+    the template's variant 'wrong', another key: the call must raise KeyError)"""
+    if t[0] != "T":
+        return t
+    cs = list(list.__iter__(sim.files[t[1]].curves))
+    if not -len(cs) <= t[2] < len(cs):
+        return (t[0], t[1], t[2], "?")
+    return (t[0], t[1], t[2], cs[t[2]].mnemonic if len(t) < 4 else t[3])
 
 
 def play(inits, templates, targets=None, oracle=True, sigs=None):
@@ -663,7 +854,7 @@ def play(inits, templates, targets=None, oracle=True, sigs=None):
     lines = [sim.observe()]
     for j, t in enumerate(templates):
         tgt = targets[j] if targets else 0
-        o = instantiate(t, tgt, len(sim.files[tgt].curves), g)
+        o = instantiate(fill_cross(t, sim), tgt, len(sim.files[tgt].curves), g)
         r = sim.step(o)
         ops.append(o)
         lines.append(r + "|" + sim.observe())
@@ -715,9 +906,22 @@ def random_template(rng, keys):
             rng.choice([2, 2, 2, 3, 0]))
 
 
-def random_history(rng, max_len, pair, oracle=False, sigs=None):
-    """-> (inits, ops, observation text, Sim)"""
-    inits = [INITS[rng.choice(["fresh", "read", "read2"])] for _ in range(2 if pair else 1)]
+def random_cross(rng, sim, tgt):
+    """a cross-file item operation on file tgt, the source being the other file"""
+    src = 1 - tgt if rng.random() < 0.85 else tgt
+    n = len(sim.files[src].curves)
+    i = rng.choice([0, -1, rng.randrange(n) if n else 0])
+    r = rng.random()
+    if r < 0.4:
+        return ("P", src, i)
+    if r < 0.7:
+        return ("Q", rng.choice([0, 1, -1, "len"]), src, i)
+    return ("T", src, i) if rng.random() < 0.85 else ("T", src, i, rng.choice(["A", "Z", "A:1"]))
+
+
+def random_history(rng, max_len, pair, oracle=False, sigs=None, init_names=("fresh", "read", "read2"), cross=0.0):
+    """-> (inits, ops, observation text, Sim).  cross: probability of a cross-file item operation per step (pairs)"""
+    inits = [INITS[rng.choice(init_names)] for _ in range(2 if pair else 1)]
     sim = Sim(inits, oracle)
     g = Gen()
     g.n = 10
@@ -726,7 +930,11 @@ def random_history(rng, max_len, pair, oracle=False, sigs=None):
     for _ in range(rng.randint(1, max_len)):
         tgt = rng.randrange(len(inits))
         las = sim.files[tgt]
-        o = instantiate(random_template(rng, las.keys()), tgt, len(las.curves), g)
+        if pair and cross and rng.random() < cross:
+            t = fill_cross(random_cross(rng, sim, tgt), sim)
+        else:
+            t = random_template(rng, las.keys())
+        o = instantiate(t, tgt, len(las.curves), g)
         r = sim.step(o)
         ops.append(o)
         lines.append(r + "|" + sim.observe())
@@ -737,7 +945,7 @@ def random_history(rng, max_len, pair, oracle=False, sigs=None):
 
 # ---- the run --------------------------------------------------------------------------------------------------
 ALPHABETS = {"full": full_alphabet, "mid": mid_alphabet, "small": small_alphabet, "micro": micro_alphabet,
-             "tiny": tiny_alphabet}
+             "tiny": tiny_alphabet, "cross": cross_alphabet}
 SAMPLE_EVERY = 211
 
 
@@ -751,7 +959,15 @@ def families(ctx):
             ("small^3", [S] * 3, ["fresh"], False),
             ("micro^4", [U] * 4, ["fresh"], False),
             ("tiny^5", [T] * 5, ["fresh"], False),
-            ("pair micro^3", [U] * 3, ["read", "fresh"], True)]
+            ("pair micro^3", [U] * 3, ["read", "fresh"], True),
+            # E: the same mixed-case ~Curve section read with each mnemonic_case
+            ("full^1", [F], ["read_upper"], False), ("full^1", [F], ["read_lower"], False),
+            ("full^1", [F], ["read_preserve"], False),
+            ("mid^2 case", [M, M], ["read_lower"], False), ("mid^2 case", [M, M], ["read_preserve"], False),
+            # A1: the item OBJECT of one file handed to the other, then edits that re-suffix / update it
+            ("cross^4", ["cross"] * 4, ["fresh", "fresh"], "explicit"),
+            ("cross^3", ["cross"] * 3, ["read", "fresh"], "explicit"),
+            ("cross^3", ["cross"] * 3, ["read_preserve", "read_lower"], "explicit")]
     if ctx.thorough:
         fams += [("full^2", [F, F], ["read"], False), ("full^2", [F, F], ["fresh"], False),
                  ("mid^3", [M] * 3, ["fresh"], False), ("mid^3", [M] * 3, ["read"], False),
@@ -759,7 +975,11 @@ def families(ctx):
                  ("micro^5", [U] * 5, ["fresh"], False), ("tiny^6", [T] * 6, ["fresh"], False),
                  ("tiny^7", [T] * 7, ["fresh"], False),
                  ("pair small^3", [S] * 3, ["read", "fresh"], True), ("pair micro^5", [U] * 5, ["fresh", "fresh"], True),
-                 ("pair mid^2", [M] * 2, ["read", "read2"], True)]
+                 ("pair mid^2", [M] * 2, ["read", "read2"], True),
+                 ("mid^2 case", [M, M], ["read_upper"], False), ("small^3 case", [S] * 3, ["read_preserve"], False),
+                 ("small^3 case", [S] * 3, ["read_lower"], False),
+                 ("cross^5", ["cross"] * 5, ["fresh", "fresh"], "explicit"),
+                 ("cross^4", ["cross"] * 4, ["read", "fresh"], "explicit")]
     return fams
 
 
@@ -772,19 +992,32 @@ def work_chunk(job):
     label, alpha_names, init_names, pair, first = job
     alphas = [ALPHABETS[a]() for a in alpha_names]
     inits = [INITS[i] for i in init_names]
-    out = {"label": label, "cases": [], "texts": [], "viol": [], "sigs": set()}
+    out = {"label": label, "cases": [], "texts": [], "viol": [], "sigs": set(), "inits": inits, "impl_only": 0,
+           "explained": {}}
     for rest in itertools.product(*alphas[1:]):
         tm = [alphas[0][first]] + list(rest)
-        targets = [j % 2 for j in range(len(tm))] if pair else None
+        if pair == "explicit":              # templates carry their target file
+            targets, tm = [x[0] for x in tm], [x[1] for x in tm]
+        else:
+            targets = [j % 2 for j in range(len(tm))] if pair else None
         ops, text, sim = play(inits, tm, targets, sigs=out["sigs"])
         if sim.shared:              # every later LASFile is polluted: stop
             out["viol"] += sim.violations[:1]
             out["abort"] = True
             return out
+        for v in sim.violations[:2]:
+            fid = v.get("explained")
+            if fid:                     # explained by a known finding: counted, three per chunk and finding are kept
+                out["explained"][fid] = out["explained"].get(fid, 0) + 1
+                if out["explained"][fid] > 3:
+                    continue
+            out["viol"].append(v)
+        if not coq_ok(inits, ops):
+            out["impl_only"] += 1       # judged by the list-model oracle only (ASSUMPTIONS)
+            continue
         if (len(out["cases"]) + first) % SAMPLE_EVERY == 0:
             out["texts"].append((len(out["cases"]), text))
         out["cases"].append((case_input(inits, ops), digest(text)))
-        out["viol"] += sim.violations[:2]
     return out
 
 
@@ -816,6 +1049,9 @@ def run(ctx):
     res = lib.Result()
     t_start = time.time()
     cases, texts, hist = [], {}, {}
+    case_inits = []             # the inits of case i as generated (decode_case cannot tell mnemonic_case)
+    n_explained = {}            # finding id -> failures of the direct oracle it explains (all of them, kept or not)
+    n_impl_only = 0
     sigs = set()
     jobs = []
     for (label, alpha_names, init_names, pair) in families(ctx):
@@ -831,9 +1067,13 @@ def run(ctx):
                 break
             base = len(cases)
             cases += out["cases"]
+            case_inits += [out["inits"]] * len(out["cases"])
+            n_impl_only += out["impl_only"]
+            for fid, k in out["explained"].items():
+                n_explained[fid] = n_explained.get(fid, 0) + k
             for (j, t) in out["texts"]:
                 texts[base + j] = t
-            hist[out["label"]] = hist.get(out["label"], 0) + len(out["cases"])
+            hist[out["label"]] = hist.get(out["label"], 0) + len(out["cases"]) + out["impl_only"]
             sigs |= out["sigs"]
             res.oracle_violations += out["viol"]
     if aborted:
@@ -848,10 +1088,35 @@ def run(ctx):
         if j % 40 == 0:
             texts[len(cases)] = text
         cases.append((case_input(inits, ops), digest(text)))
+        case_inits.append(inits)
         label = "random<=30 pair" if pair else "random<=30"
         hist[label] = hist.get(label, 0) + 1
         res.oracle_violations += sim.violations[:2]
-    res.cases = len(cases)
+        for v in sim.violations[:2]:
+            if v.get("explained"):
+                n_explained[v["explained"]] = n_explained.get(v["explained"], 0) + 1
+    # a second stream: every mnemonic_case, and pairs with cross-file item operations (shorter: the first shared-item
+    # failure ends the judged part of a history)
+    n_rand2 = 4000 if ctx.thorough else 400
+    n_rand += n_rand2
+    all_inits = ("fresh", "read", "read2", "read_upper", "read_lower", "read_preserve")
+    for j in range(n_rand2):
+        pair = j % 2 == 0
+        inits, ops, text, sim = random_history(ctx.rng, 12 if pair else 30, pair, oracle=True, sigs=sigs, init_names=all_inits,
+                                               cross=0.25 if pair else 0.0)
+        label = "random<=12 pair, cross-file items, any mnemonic_case" if pair else "random<=30 any mnemonic_case"
+        hist[label] = hist.get(label, 0) + 1
+        res.oracle_violations += sim.violations[:2]
+        for v in sim.violations[:2]:
+            if v.get("explained"):
+                n_explained[v["explained"]] = n_explained.get(v["explained"], 0) + 1
+        if coq_ok(inits, ops):
+            cases.append((case_input(inits, ops), digest(text)))
+            case_inits.append(inits)
+        else:
+            n_impl_only += 1
+    res.cases = len(cases) + n_impl_only
+    res.extra["implementation_side_only"] = n_impl_only
     res.extra["impl_and_oracle_s"] = round(time.time() - t_start, 1)
     t_start = time.time()
     res.oracle_violations.sort(key=lambda v: len(v["payload"]["ops"]))      # shortest history first
@@ -867,34 +1132,38 @@ def run(ctx):
         full = [(cases[i][0], texts[i]) for i in sample]
         for i in mism[:100]:
             if i not in texts:
-                inits, ops = decode_case(cases[i][0])
-                full.append((cases[i][0], run_history(inits, ops, oracle=False)[1]))
+                ops = decode_case(cases[i][0])[1]
+                full.append((cases[i][0], run_history(case_inits[i], ops, oracle=False)[1]))
                 sample.append(i)
         m2, err2 = lib.run_coq_cases("c14f", [], RUN_CASE, full, shard=8)
         res.corr_error = res.corr_error or err2
         for i in sorted(set(mism) | {sample[i] for i in m2}):
-            inits, ops = decode_case(cases[i][0])
-            res.mismatches.append({"inits": inits, "ops": ops})
+            res.mismatches.append({"inits": case_inits[i], "ops": decode_case(cases[i][0])[1]})
         res.extra["full_text_cases"] = len(full)
     else:
         res.corr_error = "model not built"
     res.extra["coq_s"] = round(time.time() - t_start, 1)
     res.extra["exhaustive_cases"] = n_exh
-    res.extra["oracle_violations_in_known_class"] = sum(1 for v in res.oracle_violations if finding_of(v["payload"]))
+    res.extra["oracle_violations_in_known_class"] = sum(1 for v in res.oracle_violations if v.get("explained"))
+    for fid in ("suffix-clash", "shared-item", "same-item-twice"):
+        res.extra["histories_failing_as_explained_by_" + fid] = n_explained.get(fid, 0)
     res.distinct_nontrivial = len(sigs)
     res.rule = ("histories of operations [append_curve, insert_curve, append/insert_curve_item (also with a non-item), "
                 "delete_curve (ix / mnemonic / both / neither), update_curve, replace_curve_item, las[k]=array, "
-                "las[k]=CurveItem, set_data] over names {A,B,'',a} (duplicates by repetition), positions "
+                "las[k]=CurveItem, set_data; on pairs also the cross-file item operations append_curve_item / insert_curve_item / "
+                "las[k] = (a CurveItem object of the other file)] over names {A,B,'',a} (duplicates by repetition), positions "
                 "{0,1,-1,len,len+2,-len-1}, keys {A,A:1,A:2,B,UNKNOWN,a,Z,''}, arrays of length 2 (one of 3), 2-D arrays "
                 "of width len/len+1/len+2/len-1/0 and with 0 rows, 1-D arrays, names None/[]/shorter/equal/longer/with "
                 "duplicates, truncate on/off.  Alphabets: full %d templates, mid %d, small %d, micro %d, tiny %d.  "
                 "EXHAUSTIVE (every history whose i-th operation is drawn from the i-th alphabet): %s.  SAMPLED: %d random "
-                "histories up to length 30 on one LASFile and on pairs (fresh and read).  The observation of every LASFile "
+                "histories up to length 30 on one LASFile and on pairs (fresh and read with mnemonic_case upper / lower / "
+                "preserve), of which %d (cross-file item operations, mnemonic_case='preserve') are judged by the list-model "
+                "oracle only.  The observation of every LASFile "
                 "is compared after every step.  distinct_nontrivial = distinct world states (original/session names, "
                 "array lengths, flag of every LASFile) reached after some step"
                 % (len(full_alphabet()), len(mid_alphabet()), len(small_alphabet()), len(micro_alphabet()),
                    len(tiny_alphabet()),
-                   "; ".join("%s on %s" % (f[0], "+".join(f[2])) for f in families(ctx)), n_rand))
+                   "; ".join("%s on %s" % (f[0], "+".join(f[2])) for f in families(ctx)), n_rand, n_impl_only))
     pick = [0, len(cases) // 3, n_exh - 1, len(cases) - 1]
     res.samples = [repr(decode_case(cases[i][0])) [:600] for i in pick]
     res.histogram = hist
@@ -917,32 +1186,27 @@ def replay(payload):
     return False, "the LASFile(s) agree with the list model after every step of %s" % (payload["ops"],)
 
 
-def names_in_play(payload):
-    """every mnemonic the history brings into a curve list (initial curves, new curves, keys that
-    las[k] = array may turn into a new curve, names lists)"""
-    out = []
-    for init in payload["inits"]:
-        if init != "F":
-            out += [c[0] for c in init[1]]
-    for o in payload["ops"]:
-        c = o[1]
-        if c in ("a", "A"):
-            out.append(o[2])
-        elif c in ("i", "I", "r", "t"):
-            out.append(o[3])
-        elif c == "s":
-            out.append(o[2])
-        elif c == "D":
-            out += [""] + (dec_names(o[3]) or [])      # surplus columns / a short names list give unnamed curves
-    return out
-
-
 def finding_of(payload):
-    """The C13 known finding seen from the LASFile: a literal mnemonic u:<k> next to curves named u
-    (las["A:1"] = array on a missing key, CurveItem("A:1"), names=["A:1", ...])."""
-    from props import items_common as ic
-    if ic.has_suffix_clash(names_in_play(payload)):
-        return "suffix-clash"
+    """The history is replayed and the FIRST failing clause decides (never the names or operations that merely occur):
+    suffix-clash  the C13 known finding seen from the LASFile: `keys() pairwise distinct` or `las[k] / get_curve(k)
+                  finds curve i` fails on two curves that share a key because one is literally named u:<k> and the
+                  other is a u carrying the generated suffix :<k> (explained_by_clash);
+    shared-item   the independence clause fails (an operation on one file changed another) and the curve that changed
+                  is one CurveItem OBJECT sitting in both files, on a history that contains a cross-file item
+                  operation (P / Q / T);
+    same-item-twice  `keys() pairwise distinct` (or a lookup) fails on two positions of one file that hold ONE CurveItem
+                  object, on a history in which P / Q / T handed a file an object that file already held."""
+    try:
+        v = check_history(payload["inits"], payload["ops"])
+    except Exception:      # noqa: BLE001
+        return None
+    if not v:
+        return None
+    fid, clause = v[0].get("explained"), v[0]["payload"].get("check")
+    if fid in ("suffix-clash", "same-item-twice") and clause in EXPLAINED_CLAUSES:
+        return fid          # same-item-twice: Sim.flag grants it only if the history handed a file an object it held
+    if fid == "shared-item" and clause == "independent" and any(o[1] in CROSS for o in payload["ops"]):
+        return fid          # Sim.flag grants it only if an object of ANOTHER file was handed over
     return None
 
 
